@@ -10,6 +10,7 @@ import Cobweb.Proofs.Kill
 import Cobweb.Theorems.C01
 import Cobweb.Proofs.DataCount
 import Cobweb.Proofs.SysLive
+import Cobweb.Proofs.Pay
 
 namespace Cobweb.C05
 
@@ -159,6 +160,49 @@ theorem no_data_at_quiescence {p : Prog} {h : Hist} {s : St} (hr : Reach p h ({}
     exfalso
     exact no_sys_event_data_at_quiescence hr hq d x hd (no_event_data_at_quiescence hr hq d x hal hd)
 
+/-! ### payload accounting (broadcast, entity-event and system-event payloads alike) -/
+
+/-- **Every sent payload is accounted for, along every execution**: the number of times payload `pid` was sent equals the
+    number of times it was dropped, plus the queued commands that still carry it (`broadcast`, `entityEvent`, the spawn of
+    its data entity), plus the data entities that store it untaken. Nothing is lost and nothing is dropped twice. -/
+theorem payload_accounting {p : Prog} {h : Hist} {s : St} (hr : Reach p h ({} : St) s) (pid : Nat) :
+    s.trace.count (.send pid) = s.trace.count (.dropPayload pid) + qW (cmdP pid) s + dataP pid s := by
+  have := (pay_reach p h hr).bal pid
+  simpa [nS, nD] using this
+
+/-- **A payload is never dropped more often than it was sent** — in particular a payload sent once is dropped at most once,
+    whichever way it goes (no listener, dead data entity, last reader's clean-up, a taken system event, an aborted run). -/
+theorem never_dropped_more_than_sent {p : Prog} {h : Hist} {s : St} (hr : Reach p h ({} : St) s) (pid : Nat) :
+    s.trace.count (.dropPayload pid) ≤ s.trace.count (.send pid) := by
+  have := payload_accounting hr pid; omega
+
+/-- **At quiescence every payload that was sent has been dropped exactly as often as it was sent**: no queued command is
+    left, and no data entity (`no_data_at_quiescence`, and dead entities hold no data) — so the two counts agree. -/
+theorem all_payloads_dropped_at_quiescence {p : Prog} {h : Hist} {s : St} (hr : Reach p h ({} : St) s) (hq : s.stack = [])
+    (pid : Nat) : s.trace.count (.dropPayload pid) = s.trace.count (.send pid) := by
+  obtain ⟨I, D, _⟩ := sys_reach p h hr
+  have htop := I.flag.top; rw [hq] at htop
+  have hwq : s.wq = [] := htop.2
+  have hdat : ∀ d, s.data d = none := by
+    intro d
+    cases hal : s.alive d with
+    | true => exact no_data_at_quiescence hr hq d hal
+    | false => exact D.dead d hal
+  have := payload_accounting hr pid
+  have e1 : qW (cmdP pid) s = 0 := by simp [qW, hwq, hq, sumF]
+  have e2 : dataP pid s = 0 := by
+    simp only [dataP]
+    exact sumTo_zero _ _ (fun k => by rw [hdat k]; rfl)
+  omega
+
+/-- **A data entity id is never pending twice**: it is the target of at most one queued spawn command, or it holds data,
+    never both; and a queued payload is never already marked taken. -/
+theorem data_entity_spawned_once {p : Prog} {h : Hist} {s : St} (hr : Reach p h ({} : St) s) (d : Nat) :
+    qW (cmdSp d) s + (if (s.data d).isSome then 1 else 0) ≤ 1 := by
+  have := (pay_reach p h hr).occ1 d
+  simpa [occ, someD] using this
+
+
 /-- Non-vacuity: a system sends itself nothing; the top level sends it a system event: in the middle of the tree the data
     entity exists and has a reader, at quiescence it is gone. -/
 def demoProg3 : Prog := fun _ _ _ => none
@@ -191,5 +235,15 @@ example : ((exec demoProg demoHist 30 {}).data 2).map (·.cnt) = some 2 ∧ read
 
 example : (tryCleanupData ({ alive := fun _ => true, data := fun _ => some ⟨.bc, 0, 7, 0, 1, false⟩ } : St) 3).alive 3 = false :=
   (cleanup_last_reader_drops _ 3 ⟨.bc, 0, 7, 0, 1, false⟩ rfl rfl (by decide) (by decide) rfl).1
+
+/-- Non-vacuity of the accounting: in the broadcast demo the payload 7 is sent once; in the middle of the tree it is stored on
+    the data entity and not yet dropped; at quiescence it has been dropped exactly once. -/
+example : (exec demoProg demoHist 30 {}).trace.count (.send 7) = 1 ∧ (exec demoProg demoHist 30 {}).trace.count (.dropPayload 7) = 0 ∧
+    dataP 7 (exec demoProg demoHist 30 {}) = 1 ∧
+    (exec demoProg demoHist 200 {}).trace.count (.dropPayload 7) = 1 := by decide
+
+/-- ... and the system event's payload 9 is taken by its reader and dropped once. -/
+example : (exec demoProg3 demoHist3 100 {}).trace.count (.send 9) = 1 ∧ (exec demoProg3 demoHist3 100 {}).trace.count (.dropPayload 9) = 1 := by
+  decide
 
 end Cobweb.C05
